@@ -304,7 +304,7 @@ def build_corpus(tier, rng):
     rk = [k for k in RULES if k != "underscore_sel"]
     pk = [k for k in P if k != "unreferenced"]
     fk = ["f_simple", "f_multi", "f_them"]
-    n = 24 if tier == "quick" else 400
+    n = 24 if tier == "quick" else 150
     for i in range(n):
         rs = rng.sample(rk, rng.randint(1, 5))
         ps = rng.sample(pk, rng.randint(0, 3))
